@@ -514,9 +514,39 @@ class MemoryCacheOps(Suite):
     """InMemoryCache: sequences of get / get_or_compute / forced get_or_compute / len on the cache and its (nested)
     sub-caches against the obvious reference - a mapping per sub-cache path: a look-up of a missing key changes nothing
     (the next get_or_compute calls f), a computation that raises stores nothing, every stored value - None, falsy ones -
-    comes back.  Runtime check only (the Coq cache model is the file cache)."""
+    comes back.  Against Model/MemCache.v (mrun) and against the reference written out in the oracle."""
     name = 'memory_cache_histories'
-    model = ''
+    imports = 'Value MemCache'
+    shard = 3
+    in_type = 'list mop'
+    out_type = 'list mout'
+    prelude = '''
+Definition mout_eqb (a b : mout) : bool :=
+  match a, b with
+  | MVal x n, MVal y m => value_eqb x y && Nat.eqb n m
+  | MNoValue, MNoValue => true
+  | MExc n, MExc m | MCount n, MCount m => Nat.eqb n m
+  | _, _ => false end.
+Fixpoint mouts_eqb (a b : list mout) : bool :=
+  match a, b with [], [] => true | x :: a', y :: b' => mout_eqb x y && mouts_eqb a' b' | _, _ => false end.
+'''
+    eqb = 'mouts_eqb'
+    model = '(mrun [])'
+
+    def encode(self, case, obs):
+        from ..values import cspec
+        def op(o):
+            if o['op'] == 'get':
+                return f'(MGet {csub(o["sub"])} {cstr(o["key"])})'
+            if o['op'] == 'len':
+                return f'(MLen {csub(o["sub"])})'
+            comp = 'None' if o['comp'] is None else f'(Some {cspec(o["comp"][0])})'
+            return f'(MGoc {csub(o["sub"])} {cstr(o["key"])} {comp} {cbool(o["force"])})'
+        def out(o):
+            kind, v, n = o
+            return {'val': lambda: f'(MVal {cspec(v)} {cnat(n)})', 'novalue': lambda: 'MNoValue', 'exc': lambda: f'(MExc {cnat(n)})',
+                    'len': lambda: f'(MCount {cnat(v)})'}[kind]()
+        return clist([op(o) for o in case['ops']]), clist([out(o) for o in obs.get('outs', [])])
 
     def corpus(self):
         g = lambda key, sub=(): dict(op='get', sub=list(sub), key=key)
